@@ -25,7 +25,7 @@ def digestCap : Nat := 4 * 1024 * 1024
 
 /-- A writer of the script: kind, body size and the attributes that shape its frame
 (`q` query length, `f` query format, `g` body format, `y` notify byte, `u` path variant, `x` unrouted path;
-the other attributes — `i h t v z` — do not change the bytes of a frame that does appear). -/
+the other attributes — `i h t v z s` — do not change the bytes of a frame that does appear). -/
 structure W where
   kind : Char
   size : Nat
@@ -52,7 +52,7 @@ partial def parseAttrs (cs : List Char) (w : W) : Option W :=
       else if c = 'y' then parseAttrs rest' { w with nb := some v }
       else if c = 'u' then parseAttrs rest' { w with pv := v }
       else if c = 'x' then parseAttrs rest' { w with xr := v = 1 }
-      else if c = 'i' ∨ c = 'h' ∨ c = 't' ∨ c = 'v' ∨ c = 'z' then parseAttrs rest' w
+      else if c = 'i' ∨ c = 'h' ∨ c = 't' ∨ c = 'v' ∨ c = 'z' ∨ c = 's' then parseAttrs rest' w
       else none
 
 /-- writer token `<kind><size>(<attr><n>)*` -/
